@@ -80,6 +80,9 @@ class Gen:
         rng = self.rng
         r = rng.random()
         name = self.fresh()
+        if rng.random() < self.p('malformed', 0.0):
+            # urljoin raises ValueError ("Invalid IPv6 URL"): the target counts as unavailable, nothing is fetched
+            return '//[bad/' + name, 'malformed'
         if r < self.p('cycle', 0.04):
             tgt = rng.choice(chain)
             # write the ancestor's URL as an absolute or root-relative reference
@@ -104,33 +107,46 @@ class Gen:
             return '//%s/%s%s' % (rng.choice(['cdn.example', 'h']), rng.choice(['', 'c/']), name), 'schemerel'
         return 'css/' + name, 'rel'
 
-    def gen_sheet(self, url, chain, depth, max_depth):
-        """the rules of the sheet at `url`; fills self.vfs with the sheets it imports"""
+    def gen_sheet(self, url, chain, depth, max_depth, unwrappable=False):
+        """the rules of the sheet at `url`; fills self.vfs with the sheets it imports.
+        `unwrappable`: the sheet gets an @page rule, so an @import of it with media has to be kept"""
         rng = self.rng
         rules = []
         if rng.random() < 0.12:
             rules.append(('C', rng.choice(['utf-8', 'ascii', 'iso-8859-1'])))
         n_imp = 0
-        if depth < max_depth:
+        # a sheet with at least three @imports most of which have to be kept when it is flattened
+        heavy = depth < max_depth and rng.random() < self.p('kept', 0.0)
+        if heavy:
+            n_imp = rng.choice([3, 3, 4, 5])
+        elif depth < max_depth:
             n_imp = rng.choice([0, 1, 1, 2, 2, 3] if depth == 0 else [0, 0, 1, 1, 2])
         for _ in range(n_imp):
             if rng.random() < 0.15:
                 rules.append(('K', '/*%s*/' % rng.choice(['i', ' before import ', 'x'])))
             href, kind = self.gen_href(url, chain)
             media = 'all' if rng.random() < self.p('all', 0.6) else rng.choice(S.MEDIA)
+            missing = rng.random() < self.p('missing', 0.10)
+            force = False
+            if heavy:
+                r = rng.random()
+                if r < 0.4:
+                    missing = True
+                elif r < 0.85:
+                    missing, force, media = False, True, rng.choice(S.MEDIA)
             rules.append(S.raw_import(href, media))
-            if kind in ('cycle', 'diamond'):
+            if kind in ('cycle', 'diamond', 'malformed'):
                 continue
             try:
                 full = up.urljoin(url, href)
             except ValueError:
                 continue
-            if rng.random() < self.p('missing', 0.10):
+            if missing:
                 continue
             if full in self.vfs or full in chain:
                 continue
             self.vfs[full] = None       # reserve the key (insertion order = generation order)
-            self.vfs[full] = self.gen_sheet(full, [full] + chain, depth + 1, max_depth)
+            self.vfs[full] = self.gen_sheet(full, [full] + chain, depth + 1, max_depth, unwrappable=force)
         if rng.random() < self.p('ns', 0.06):
             k = rng.choice('123')
             rules.append(('N', 'p' + k, 'http://ns/' + k))
@@ -138,6 +154,8 @@ class Gen:
         kinds = 'SSSK' if simple else 'SSSSMPFKU'
         for _ in range(rng.choice([0, 1, 1, 2, 3])):
             rules.append(self.body_rule(kinds))
+        if unwrappable:
+            rules.append(('P', rng.choice(['', ':first']), [('margin', [('t', '1px')], '')], []))
         return rules
 
     def body_rule(self, kinds):
@@ -233,8 +251,13 @@ def url_regions(u, nested, ctx):
 
 
 class Meaning:
-    def __init__(self, vfs, drop_empty=False, minified=False):
+    def __init__(self, vfs, drop_empty=False, minified=False, embedded=False):
         self.vfs = vfs
+        self.embedded = embedded                 # follow an @import into the sheet the rule holds (loaded DOM state,
+                                                 # after edits) instead of looking its URL up in the file system
+        self.item_depth = []                     # import depth of each item
+        self.import_seq = []                     # (href as written, media) of every @import met, depth first
+        self.top_seq = []                        # … of the sheet's own @import rules
         self.drop_empty = drop_empty             # serialisation leaves out rules without declarations
         self.minified = minified                 # useMinified also drops unknown at-rules and unused @namespace
         self.items = []          # ordered
@@ -275,7 +298,23 @@ class Meaning:
                 except ValueError:
                     full = 'unjoinable:' + r[1]
                 m = media + ((r[2],) if r[2] != 'all' else ())
+                self.import_seq.append((r[1], r[2]))
+                if self.embedded:
+                    if ctx['depth'] > 0 and not full.startswith('unjoinable:'):
+                        try:
+                            if up.urljoin(chain[0], r[1]) != full:
+                                self.misresolving.add(r[1])
+                        except ValueError:
+                            self.misresolving.add(r[1])
+                    if r[3]:
+                        c2 = {'depth': ctx['depth'] + 1,
+                              'origin_change': ctx['origin_change'] or origin(r[4]) != origin(href)}
+                        self.walk(r[5], r[4], chain + [r[4]], m, c2)
+                    else:
+                        self.unavail[(full, m)] += 1
+                    continue
                 if ctx['depth'] == 0:
+                    self.top_seq.append((r[1], r[2]))
                     self.top_imports.append((r[1], full in self.vfs and full not in chain))
                     self.top_media.append(r[2])
                 else:
@@ -284,7 +323,8 @@ class Meaning:
                             self.misresolving.add(r[1])
                     except ValueError:
                         self.misresolving.add(r[1])
-                if full in chain:
+                if full in chain or full.startswith('unjoinable:'):
+                    # recursive, or a malformed URL: counts as unavailable without any fetch
                     self.unavail[(full, m)] += 1
                     continue
                 self.fetches[full] += 1
@@ -297,24 +337,28 @@ class Meaning:
             elif k == 'S':
                 if r[2] or not self.drop_empty:
                     self.items.append(('S', media, r[1], self.style(r[2], href, ctx)))
+                    self.item_depth.append(ctx['depth'])
             elif k == 'F':
                 self.items.append(('F', media, '', self.style(r[1], href, ctx)))
+                self.item_depth.append(ctx['depth'])
             elif k == 'P':
                 self.items.append(('P', media, r[1], self.style(r[2], href, ctx),
                                    tuple((n, self.style(st, href, ctx)) for n, st in r[3]
                                          if st or not self.drop_empty)))
+                self.item_depth.append(ctx['depth'])
             elif k == 'M':
                 self.walk(r[2], href, chain, media + (r[1],), ctx)
             elif k == 'U':
                 if not self.minified:
                     self.items.append(('U', media, r[1]))
+                    self.item_depth.append(ctx['depth'])
             elif k == 'N':
                 if not self.minified:
                     self.ns.add((r[1], r[2]))
 
 
-def meaning(rules, href, vfs, drop_empty=False, minified=False):
-    m = Meaning(vfs, drop_empty, minified)
+def meaning(rules, href, vfs, drop_empty=False, minified=False, embedded=False):
+    m = Meaning(vfs, drop_empty, minified, embedded)
     m.walk(rules, href, [href], (), {'depth': 0, 'origin_change': False})
     return m
 
@@ -341,6 +385,11 @@ def url_diffs(a, b, out):
             return False
         return all(url_diffs(x, y, out) for x, y in zip(a, b))
     return a == b
+
+
+def is_subsequence(xs, ys):
+    it = iter(ys)
+    return all(any(x == y for y in it) for x in xs)
 
 
 def unmerged_imports(orig, flat):
@@ -370,9 +419,17 @@ def compare_meaning0(orig, flat):
     if collections.Counter(ids_a) != collections.Counter(ids_b):
         ca, cb = collections.Counter(ids_a), collections.Counter(ids_b)
         return [('rules', {'lost': [repr(k) for k in (ca - cb)][:5], 'gained': [repr(k) for k in (cb - ca)][:5]}, None)]
+    if flat.top_seq and not is_subsequence(flat.top_seq, orig.import_seq):
+        # an @import that is kept is kept as it is, and kept @imports keep their relative order
+        out.append(('kept-import-order', {'kept_in_flattened_sheet': flat.top_seq[:8],
+                                          'imports_of_the_original_in_order': orig.import_seq[:12]}, None))
     if ids_a != ids_b:
         first = next(i for i, (x, y) in enumerate(zip(ids_a, ids_b)) if x != y)
-        hoist = any(av for _, av in flat.top_imports)
+        # the known finding moves a kept @import (with everything it stands for) in front of rules merged before it;
+        # it changes neither the order among the merged rules nor the order among the kept @imports
+        kept = [i for i, d in zip(ids_b, flat.item_depth) if d > 0]
+        merged = [i for i, d in zip(ids_b, flat.item_depth) if d == 0]
+        hoist = bool(kept) and is_subsequence(kept, ids_a) and is_subsequence(merged, ids_a)
         out.append(('order', {'position': first, 'original_has': repr(ids_a[first]), 'flattened_has': repr(ids_b[first])},
                     'C19-kept-import-hoisted' if hoist else None))
     by_a, by_b = collections.defaultdict(list), collections.defaultdict(list)
